@@ -450,6 +450,14 @@ impl BloomFilter {
         }
 
         let num_words = num_longs as usize;
+        if !is_empty {
+            // The bit count and every word of the bit array must be present before the array is allocated.
+            let header_size = 8 * Family::BLOOMFILTER.min_pre_longs as u64;
+            let payload_size = 8 * (num_words as u64 + 1);
+            if (bytes.len() as u64) < header_size + payload_size {
+                return Err(Error::insufficient_data("bit_array"));
+            }
+        }
         let mut bit_array = vec![0u64; num_words].into_boxed_slice();
         let num_bits_set;
 
